@@ -58,16 +58,16 @@ type guardKey struct {
 // is a boolean Phi), the guards common to every incoming edge whose value can
 // satisfy the condition.
 func (p *Program) threadGuard(g Guard, depth int) []Guard {
-	merged, can := p.mergeTest(g)
+	merged, can, nilTest := p.mergeTest(g)
 	if merged == nil {
 		return nil
 	}
-	return p.threadMerged(merged, can, depth)
+	return p.threadMerged(merged, can, nilTest, depth)
 }
 
 // mergeTest: the merged value (Phi or cell load) a guard tests against a
 // constant, and the predicate "this incoming value may satisfy the test".
-func (p *Program) mergeTest(g Guard) (ssa.Value, func(ssa.Value) bool) {
+func (p *Program) mergeTest(g Guard) (ssa.Value, func(ssa.Value) bool, int) {
 	v := g.Cond
 	pol := g.Pol
 	for {
@@ -80,6 +80,7 @@ func (p *Program) mergeTest(g Guard) (ssa.Value, func(ssa.Value) bool) {
 	// the merged value: a Phi, or a load from a local cell (a variable captured by a
 	// deferred closure, e.g. a named result) with its reaching stores
 	var merged ssa.Value
+	isNilTest, wantEqOut := false, false
 	var can func(in ssa.Value) bool // may the incoming value satisfy the condition?
 	isMerge := func(v ssa.Value) bool {
 		if _, ok := v.(*ssa.Phi); ok {
@@ -94,7 +95,7 @@ func (p *Program) mergeTest(g Guard) (ssa.Value, func(ssa.Value) bool) {
 	switch x := v.(type) {
 	case *ssa.Phi, *ssa.UnOp:
 		if !isMerge(v) {
-			return nil, nil
+			return nil, nil, 0
 		}
 		merged = v
 		can = func(in ssa.Value) bool {
@@ -105,21 +106,23 @@ func (p *Program) mergeTest(g Guard) (ssa.Value, func(ssa.Value) bool) {
 		}
 	case *ssa.BinOp:
 		if x.Op != token.EQL && x.Op != token.NEQ {
-			return nil, nil
+			return nil, nil, 0
 		}
 		wantEq := (x.Op == token.EQL) == pol
+		wantEqOut = wantEq
 		ph, c := x.X, x.Y
 		if !isMerge(ph) {
 			ph, c = x.Y, x.X
 		}
 		if !isMerge(ph) {
-			return nil, nil
+			return nil, nil, 0
 		}
 		merged = ph
 		k, ok := c.(*ssa.Const)
 		if !ok {
-			return nil, nil
+			return nil, nil, 0
 		}
+		isNilTest = k.Value == nil
 		can = func(in ssa.Value) bool {
 			if in == nil { // zero value of the cell
 				return k.Value == nil && wantEq || k.Value != nil
@@ -138,9 +141,16 @@ func (p *Program) mergeTest(g Guard) (ssa.Value, func(ssa.Value) bool) {
 			return true
 		}
 	default:
-		return nil, nil
+		return nil, nil, 0
 	}
-	return p.resolveMerge(merged), can
+	nilTest := 0
+	if isNilTest {
+		nilTest = -1
+		if wantEqOut {
+			nilTest = 1
+		}
+	}
+	return p.resolveMerge(merged), can, nilTest
 }
 
 // resolveMerge follows a cell load with one reaching store to the stored value.
@@ -196,14 +206,14 @@ func reachesAvoiding(from, to, avoid *ssa.BasicBlock) bool {
 
 // feasiblePhiEdges: for a guard that tests a Phi, the incoming edges that can satisfy it.
 func (p *Program) feasiblePhiEdges(g Guard) (*ssa.Phi, []bool) {
-	merged, can := p.mergeTest(g)
+	merged, can, nilTest := p.mergeTest(g)
 	phi, ok := merged.(*ssa.Phi)
 	if !ok {
 		return nil, nil
 	}
 	out := make([]bool, len(phi.Edges))
-	for i, in := range phi.Edges {
-		out[i] = p.phiCan(in, can, 0)
+	for i := range phi.Edges {
+		out[i] = p.edgeCan(phi, i, can, nilTest)
 	}
 	return phi, out
 }
@@ -235,7 +245,7 @@ func (p *Program) feasibleEdgesAt(b *ssa.BasicBlock) map[*ssa.BasicBlock][]bool 
 	return out
 }
 
-func (p *Program) threadMerged(merged ssa.Value, can func(ssa.Value) bool, depth int) []Guard {
+func (p *Program) threadMerged(merged ssa.Value, can func(ssa.Value) bool, nilTest int, depth int) []Guard {
 	var common map[guardKey]Guard
 	feasible := 0
 	meet := func(gs []Guard) {
@@ -255,8 +265,8 @@ func (p *Program) threadMerged(merged ssa.Value, can func(ssa.Value) bool, depth
 	}
 	if phi, ok := merged.(*ssa.Phi); ok {
 		pb := phi.Block()
-		for i, in := range phi.Edges {
-			if !p.phiCan(in, can, 0) {
+		for i := range phi.Edges {
+			if !p.edgeCan(phi, i, can, nilTest) {
 				continue
 			}
 			pr := pb.Preds[i]
@@ -422,6 +432,53 @@ func reachingStores(load *ssa.UnOp) ([]*ssa.Store, bool) {
 		work = append(work, b.Preds...)
 	}
 	return out, true
+}
+
+// edgeCan: can the value arriving on edge i satisfy the test, also given what
+// the guards at the predecessor say about its nil-ness?
+func (p *Program) edgeCan(phi *ssa.Phi, i int, can func(ssa.Value) bool, nilTest int) bool {
+	in := phi.Edges[i]
+	if !p.phiCan(in, can, 0) {
+		return false
+	}
+	if nilTest == 0 {
+		return true
+	}
+	pr := phi.Block().Preds[i]
+	gs := append([]Guard{}, p.directGuardsAt(pr)...)
+	if ifi, ok := pr.Instrs[len(pr.Instrs)-1].(*ssa.If); ok && pr.Succs[0] != pr.Succs[1] {
+		for k, sb := range pr.Succs {
+			if sb == phi.Block() {
+				gs = append(gs, Guard{If: ifi, Cond: ifi.Cond, Pol: k == 0})
+			}
+		}
+	}
+	for _, g := range gs {
+		v, pol := g.Cond, g.Pol
+		for {
+			if u, ok := v.(*ssa.UnOp); ok && u.Op == token.NOT {
+				v, pol = u.X, !pol
+				continue
+			}
+			break
+		}
+		b, ok := v.(*ssa.BinOp)
+		if !ok || (b.Op != token.EQL && b.Op != token.NEQ) {
+			continue
+		}
+		x, y := b.X, b.Y
+		if isNilConst(x) {
+			x, y = y, x
+		}
+		if !isNilConst(y) || x != in {
+			continue
+		}
+		isNil := (b.Op == token.EQL) == pol
+		if isNil != (nilTest == 1) {
+			return false
+		}
+	}
+	return true
 }
 
 // phiCan: can the incoming value (possibly itself a Phi) satisfy the test?
